@@ -20,6 +20,7 @@ DEFAULT_W = dict(
     blankgroup=0.03,     # group names that differ by a leading / trailing blank
     multias=0.25,        # (given As) several results sharing the As list, one of them being a listed interface itself
     optseq=0.3,          # container options given in another order / repeated (the last value counts)
+    selfcycle=0.02,      # a constructor feeding, through several results, the group it consumes
     shadow=0.03,         # one key provided in a scope and in an ancestor, decorated on the path, consumed below
     vizgroup=0.0,        # a value group with failing members, consumed and drawn with that Invoke's error
     loc=0.03,            # Provide carries dig.LocationForPC
@@ -881,6 +882,38 @@ class Gen:
             self.invokers.append((cf, csc))
             self.ops.append({"op": "invoke", "scope": csc, "fn": cf, "info": False})
 
+    # ---- a constructor that feeds (through several results) the very group it consumes: rejected for the cycle
+    def op_group_self_cycle(self):
+        r = self.r
+        elem = r.choice(PT[:4])
+        g = self.pick_group()
+        sl = self.slice_of(elem)
+        sc = r.randrange(0, self.nscopes)
+        # an honest feeder first, sometimes
+        if r.random() < 0.6:
+            fid = self.new_fn([], [u(elem)])
+            self.ops.append({"op": "provide", "scope": r.choice(self.anc(sc)), "fn": fid, "name": "", "group": g, "as": [], "export": False,
+                             "cb": self.p("cb"), "info": False, "opts": ["group"]})
+            self.groups_fed.append((sc, elem, g))
+        gin = self.st([self.in_field(), self.field("G", u(sl), {"group": g})])
+        k = r.choice([2, 2, 3])
+        if r.random() < 0.5:
+            outs = [self.st([self.out_field()] + [self.field("R%d" % j, u(elem), {"group": g}) for j in range(k)])]
+            opts = {"name": "", "group": "", "as": [], "opts": []}
+        else:
+            outs = [u(elem)] * k
+            opts = {"name": "", "group": g, "as": [], "opts": ["group"]}
+        fid = self.new_fn([gin], outs)
+        export = sc != 0 and r.random() < 0.3
+        self.ops.append({"op": "provide", "scope": sc, "fn": fid, "name": "", "group": opts["group"], "as": [], "export": export,
+                         "cb": self.p("cb"), "info": False, "opts": sorted(set(opts["opts"] + (["export"] if export else [])))})
+        # whoever consumes the group afterwards must not see the rejected constructor
+        inv = self.new_fn([gin], [])
+        self.invokers.append((inv, sc))
+        for _ in range(r.choice([1, 2])):
+            below = [s for s in range(self.nscopes) if sc in self.anc(s)]
+            self.ops.append({"op": "invoke", "scope": r.choice(below), "fn": inv, "info": False})
+
     # ---- a value group some of whose members fail, consumed and drawn with the error of that Invoke
     def op_failed_group_viz(self):
         r = self.r
@@ -1006,6 +1039,9 @@ class Gen:
                 continue
             if r.random() < self.w["shadow"]:
                 self.op_shadow_web()
+                continue
+            if r.random() < self.w["selfcycle"]:
+                self.op_group_self_cycle()
                 continue
             if r.random() < self.w["deepcycle"]:
                 self.op_deep_cycle()
